@@ -176,6 +176,23 @@ func ForgeCert(key *rsa.PrivateKey, issuer *x509.Certificate, issuerKey *rsa.Pri
 	return c
 }
 
+// LookalikeRoot makes a self-signed CA certificate that copies the subject, serial and validity of
+// root but certifies key: same names, other key.
+func LookalikeRoot(root *x509.Certificate, key *rsa.PrivateKey) *x509.Certificate {
+	t := &x509.Certificate{SerialNumber: root.SerialNumber, Subject: root.Subject, NotBefore: root.NotBefore, NotAfter: root.NotAfter,
+		IsCA: true, BasicConstraintsValid: true, MaxPathLenZero: true, KeyUsage: x509.KeyUsageCertSign | x509.KeyUsageCRLSign,
+		SignatureAlgorithm: x509.SHA256WithRSAPSS}
+	der, err := x509.CreateCertificate(rand.Reader, t, t, &key.PublicKey, key)
+	if err != nil {
+		panic(err)
+	}
+	c, err := x509.ParseCertificate(der)
+	if err != nil {
+		panic(err)
+	}
+	return c
+}
+
 // Reassemble builds endorsement bytes from a golden measurement re-marshalled with the given
 // certificate, signed with key under scheme.
 func Reassemble(g *epb.VMGoldenMeasurement, cert *x509.Certificate, key *rsa.PrivateKey, scheme int) []byte {
